@@ -87,6 +87,16 @@ def fold_reach(fn, ev, env_fn, cond_fn=None, untracked=()):
     boolean / variant values the path itself assigned are respected: a helper `fn ok(..) -> bool` inlined back is followed precisely)."""
     def decide(b):
         t = fn.blocks[b].term
+        if t["k"] == "switch" and t.get("ty") != "bool":
+            # a switch on a value env_fn knows (the discriminant of an assumed variant): the one matching case
+            cv = ev.op(t["op"], (b, "term"))
+            kv = env_fn(cv) if isinstance(cv, tuple) else None
+            if kv is not None:
+                for val, bb in t["cases"]:
+                    if val == kv:
+                        return [bb]
+                return [t["otherwise"]]
+            return None
         if not (t["k"] == "switch" and t.get("ty") == "bool"):
             return None
         cond = ev.op(t["op"], (b, "term"))
@@ -490,6 +500,16 @@ def run(ctx):
         while isinstance(c, tuple) and c[0] == "un" and c[1] == "Not":
             c = c[2]
             neg = not neg
+        if isinstance(c, tuple) and len(c) == 4 and c[0] == "bin" and c[1] in ("Eq", "Ne"):
+            # `matches!(cfg.kms_protection(), KmsProtection::Plaintext)`: a comparison of the discriminant with the variant's index
+            for x_, y_ in ((c[2], c[3]), (c[3], c[2])):
+                if isinstance(x_, tuple) and x_ and x_[0] == "discr" and is_call(values.strip_payload(x_[1])) and values.strip_payload(x_[1])[1].endswith("ServerConfig::kms_protection") \
+                        and isinstance(y_, tuple) and y_[0] == "int":
+                    vs_ = [a_ for a_ in P.adts if a_.endswith("::KmsProtection")]
+                    names_ = [v_["name"] for v_ in P.adts[vs_[0]]["variants"]] if vs_ else []
+                    if 0 <= y_[1] < len(names_):
+                        v = (names_[y_[1]] == "Plaintext") == (c[1] == "Eq")
+                        return (not v) if neg else v
         if is_call(c) and callee_name(c[1]) in ("eq", "ne") and any(is_call(a) and a[1].endswith("ServerConfig::kms_protection") for a in c[2]):
             # the only KmsProtection value that can be a compile-time constant is the data-less variant Plaintext
             plain = any(a[0] in ("opaque", "bytes", "enum") or (a[0] == "agg" and str(a[1]).endswith("KmsProtection::Plaintext")) for a in c[2])
@@ -503,6 +523,11 @@ def run(ctx):
         def env_fn(s, v=v):
             if isinstance(s, tuple) and s and s[0] == "len" and is_call(s[1]) and s[1][1].endswith("ServerConfig::seed"):
                 return v
+            if isinstance(s, tuple) and s and s[0] == "discr" and is_call(values.strip_payload(s[1])) and values.strip_payload(s[1])[1].endswith("ServerConfig::kms_protection"):
+                # `matches!(cfg.kms_protection(), KmsProtection::Plaintext)` kept in a local: the plaintext case is assumed, as in kms_cond
+                vs_ = [a_ for a_ in P.adts if a_.endswith("::KmsProtection")]
+                names_ = [v_["name"] for v_ in P.adts[vs_[0]]["variants"]] if vs_ else []
+                return names_.index("Plaintext") if "Plaintext" in names_ else None
             return None
 
         def cond_fn(c, v=v):
